@@ -3,7 +3,8 @@ R1 outputs have (n_paths, n_steps) columns; R2 column 0 is the requested initial
 in pfhedge.stochastic and of cast_state; R4 exponential-type prices are init*exp(.), volatility = sqrt(clamp(variance,0));
 R5 simulate() registers every field of one generator call; R6 every generator terminates; R7 no uninitialised column of a torch.empty
 output; R8 the quadratic-exponential variance step maps V >= 0 to V >= 0 (inductive sign certificate; Heston variance = that series).
-Third round: R10 buffer-registry histories of the primaries (last registration wins, one buffer per name, simulate replaces, re-configuration), the antithetic engine returns N rows."""
+Third round: R10 buffer-registry histories of the primaries (last registration wins, one buffer per name, simulate replaces, re-configuration), the antithetic engine returns N rows.
+Rounds 4-5: R3e the library's own engines honour the dtype request (the requested dtype, else the global default)."""
 import ast
 
 import sympy as sp
